@@ -222,7 +222,10 @@ def main(tier_: str) -> int:
                         skb = M.skeleton(rb.data)
                         vals = text_and_attr_values(root_h)
                         # the string must survive verbatim wherever the template shows it at all
-                        shown = any(BENIGN in v for v in text_and_attr_values(M.parse_xml(rb.data)))
+                        # ... outside URLs (inside a URL the value is percent-encoded, which is correct)
+                        def urlish(v: str) -> bool:
+                            return '://' in v or '?' in v or v.startswith('/') or '=' in v
+                        shown = any(BENIGN in v and not urlish(v) for v in text_and_attr_values(M.parse_xml(rb.data)))
                         found = 1 if (not shown) or any(hv[:120] in v for v in vals) else 0
                         lines.append({'ev': 'pair', 'url': uh, 'hostile': hv[:40], 'wf': 1, 'sk_hostile': skh, 'sk_benign': skb, 'found': found})
                     except Exception as err:      # noqa: BLE001
